@@ -574,7 +574,9 @@ class eval_abs(object):
             o.append((b, stop))
         return o
 
-    def eval_ExprMem(self, e, eval_cache = {}):
+    def eval_ExprMem(self, e, eval_cache = None):
+        if eval_cache is None:
+            eval_cache = {}
         a_val = expr_simp(self.eval_expr(e.arg, eval_cache))
         if isinstance(a_val, ExprTop):
             #XXX hack test
@@ -676,7 +678,9 @@ class eval_abs(object):
         tmp = expr_simp(ExprSlice(self.pool[tmp], 0, a.size))
         return tmp
 
-    def eval_ExprOp(self, e, eval_cache = {}):
+    def eval_ExprOp(self, e, eval_cache = None):
+        if eval_cache is None:
+            eval_cache = {}
         args = []
         for a in e.args:
             b = expr_simp(self.eval_expr(a, eval_cache))
@@ -707,7 +711,9 @@ class eval_abs(object):
             return ret_value
         return ExprInt(cast_int(ret_value))
 
-    def eval_ExprCond(self, e, eval_cache = {}):
+    def eval_ExprCond(self, e, eval_cache = None):
+        if eval_cache is None:
+            eval_cache = {}
         cond = self.eval_expr(e.cond, eval_cache)
         src1 = self.eval_expr(e.src1, eval_cache)
         src2 = self.eval_expr(e.src2, eval_cache)
@@ -722,7 +728,9 @@ class eval_abs(object):
                 return src1
         return ExprCond(cond, src1, src2)
 
-    def eval_ExprSlice(self, e, eval_cache = {}):
+    def eval_ExprSlice(self, e, eval_cache = None):
+        if eval_cache is None:
+            eval_cache = {}
         arg = expr_simp(self.eval_expr(e.arg, eval_cache))
         if isinstance(arg, ExprTop):
             return ExprTop()
@@ -742,7 +750,9 @@ class eval_abs(object):
             return ExprSlice(arg, e.start, e.stop)
         return ExprSlice(arg, e.start, e.stop)
 
-    def eval_ExprCompose(self, e, eval_cache = {}):
+    def eval_ExprCompose(self, e, eval_cache = None):
+        if eval_cache is None:
+            eval_cache = {}
         args = []
         for x, start, stop in e.args:
             aa = self.eval_expr(x, eval_cache)
@@ -821,7 +831,9 @@ class eval_abs(object):
     def eval_ExprTop(self, e, eval_cache = {}):
         return e
 
-    def eval_expr_no_cache(self, e, eval_cache = {}):
+    def eval_expr_no_cache(self, e, eval_cache = None):
+        if eval_cache is None:
+            eval_cache = {}
         c = e.__class__
         deal_class = {ExprId: self.eval_ExprId,
                       ExprInt: self.eval_ExprInt,
